@@ -50,6 +50,8 @@ def run(run, ix, tier):
     run.rule('F-R2', floor=2 * len(orders), desc='==/!= are exact endpoint (in)equality')
     run.rule('F-R3', floor=6, desc='operator methods dispatch to the like-named kernel, operands in order')
     run.rule('F-R4', floor=len(orders), desc='`in` is containment')
+    run.rule('F-R6', floor=6, desc='unsupported operands answer NotImplemented, never a truthy exception class')
+    run.rule('F-R5', floor=2 * len(orders), desc='`in` with a complex operand: never True off the real line')
 
     mod = ix.module(LIBMPI)
     for rel in ('lt', 'le', 'gt', 'ge'):
@@ -212,26 +214,149 @@ def run(run, ix, tier):
             'returns %r, expected %r' % (nbad, o, got, want), line=cont.lineno))
     run.sample('F-R4', '`t in s` evaluated on %d orderings through ivmpf.__le__ -> mpi_le' % len(orders))
 
+    check_fallback_values(run, ix)
 
-def eval_contains(ix, fnode, s_iv, t_iv, optable):
+    # ---- complex operand of `in` (ctx.mpf(t) hands back an ivmpc for a complex t) -----------
+    if not any(f.rule in ('F-R3', 'F-R4') for f in run.findings):
+        first = None
+        nbad = 0
+        for o in orders:
+            sa, sb, ta, tb = o
+            for im in ('nonzero', 'zero'):
+                want = (sa <= ta and tb <= sb) if im == 'zero' else False
+                try:
+                    got = eval_contains(ix, cont, (sa, sb), (ta, tb), optable, t_imag=im)
+                    why = None if (got is not None and bool(got) == want) else \
+                        'returns %r, expected %r' % (got, want)
+                except ComplexAsReal as e:
+                    why = ('the complex operand is used as a real interval (%s) without its '
+                           'imaginary part being examined' % e)
+                except Unsupported as e:
+                    raise AnalysisError('ivmpf.__contains__ (complex operand): %s' % e)
+                if why:
+                    nbad += 1
+                    first = first or (o, im, why)
+                    run.rule('F-R5')['sites'] += 1
+                    run.obligations += 1
+                else:
+                    run.ok('F-R5')
+        if first:
+            o, im, why = first
+            run.rule('F-R5')['failed'] += nbad
+            run.findings.append(Finding(
+                'F-R5', CTX_IV, 'ivmpf.__contains__', 'def __contains__ (complex operand)',
+                'a complex t with %s imaginary part, ranks (sa,sb,ta,tb)=%s: %s (%d cases)'
+                % (im, o, why, nbad), line=cont.lineno))
+        run.sample('F-R5', 'complex operand of `in`: False unless Im is exactly zero and Re is contained')
+
+
+CMP_METHODS = ('__lt__', '__le__', '__gt__', '__ge__', '__eq__', '__ne__', '_cmp', '_compare',
+               '__contains__')
+
+
+def check_fallback_values(run, ix):
+    """A comparison method that cannot handle its operand answers with the NotImplemented
+    singleton (Python then tries the reflected operation and finally raises TypeError).  Any
+    other non-boolean constant -- in particular an exception CLASS, which is truthy -- turns
+    "cannot compare" into "True"."""
+    import builtins
+    n = 0
+    for rel in ('mpmath/rational.py', CTX_IV, 'mpmath/ctx_mp_python.py'):
+        m = ix.module(rel)
+        for f in m.funcs.values():
+            if f.name not in CMP_METHODS:
+                continue
+            for x in ast.walk(f.node):
+                if not (isinstance(x, ast.Return) and isinstance(x.value, ast.Name)):
+                    continue
+                nm = x.value.id
+                obj = getattr(builtins, nm, None)
+                if nm == 'NotImplemented':
+                    n += 1
+                    run.ok('F-R6', '%s returns NotImplemented' % f.qualname if n < 4 else None)
+                elif isinstance(obj, type) and issubclass(obj, BaseException):
+                    n += 1
+                    run.fail(Finding('F-R6', rel, f.qualname, norm(x),
+                                     'a comparison returns the exception class %s (a truthy object) '
+                                     'instead of the NotImplemented singleton: "x < y" is reported '
+                                     'True for operands it cannot compare' % nm, line=x.lineno))
+    if n < 6:
+        raise AnalysisError('only %d NotImplemented fallbacks found in comparison methods' % n)
+
+
+class ComplexAsReal(Exception):
+    pass
+
+
+def eval_contains(ix, fnode, s_iv, t_iv, optable, t_imag=None):
+    """Evaluate `t in s` on one endpoint ordering.  t_imag=None: t is a real interval;
+    'zero' / 'nonzero': t is a complex interval with real part t_iv and that imaginary part."""
     params = [a.arg for a in fnode.args.args]
-    env = {params[0]: ('iv', s_iv), params[1]: ('iv', t_iv)}
+    tval = ('iv', t_iv) if t_imag is None else ('civ', t_iv, t_imag)
+    env = {params[0]: ('iv', s_iv), params[1]: tval}
+
+    class _Ret(Exception):
+        pass
 
     def ev(e):
         if isinstance(e, ast.Name):
+            if e.id == 'mpi_zero':
+                return ('imag', 'zero')
             return env[e.id]
+        if isinstance(e, ast.Constant) and e.value in (True, False):
+            return e.value
         if isinstance(e, ast.Attribute) and e.attr in ('a', 'b'):
             v = ev(e.value)
+            if v[0] == 'civ':
+                raise ComplexAsReal(norm(e))
             if v[0] != 'iv':
                 raise Unsupported('attribute of non-interval')
             x = v[1][0] if e.attr == 'a' else v[1][1]
             return ('iv', (x, x))
+        if isinstance(e, ast.Attribute) and e.attr == '_mpci_':
+            v = ev(e.value)
+            if v[0] != 'civ':
+                raise Unsupported('_mpci_ of a real interval')
+            return ('pair', ('raw', v[1]), ('imag', v[2]))
+        if isinstance(e, ast.Attribute) and e.attr in ('real', 'imag'):
+            v = ev(e.value)
+            if v[0] == 'iv':
+                return v if e.attr == 'real' else ('imag', 'zero')
+            if v[0] == 'civ':
+                return ('iv', v[1]) if e.attr == 'real' else ('imag', v[2])
+            raise Unsupported('%s of %s' % (e.attr, v[0]))
         if isinstance(e, ast.Call) and norm(e.func) in ('self.ctx.mpf', 'self.ctx.convert') \
                 and len(e.args) == 1:
             return ev(e.args[0])       # conversion of an interval is the identity
+        if isinstance(e, ast.Call) and norm(e.func) == 'self.ctx.make_mpf' and len(e.args) == 1:
+            v = ev(e.args[0])
+            if v[0] != 'raw':
+                raise Unsupported('make_mpf of %s' % v[0])
+            return ('iv', v[1])
+        if isinstance(e, ast.Call) and norm(e.func) == 'hasattr' and len(e.args) == 2 and \
+                isinstance(e.args[1], ast.Constant):
+            v = ev(e.args[0])
+            if e.args[1].value == '_mpci_':
+                return v[0] == 'civ'
+            if e.args[1].value == '_mpi_':
+                return v[0] == 'iv'
+            raise Unsupported('hasattr %s' % e.args[1].value)
+        if isinstance(e, ast.UnaryOp) and isinstance(e.op, ast.Not):
+            v = ev(e.operand)
+            if v is None or isinstance(v, bool):
+                return not v
+            raise Unsupported('not of %r' % (v,))
         if isinstance(e, ast.Compare) and len(e.ops) == 1:
             a = ev(e.left)
             b = ev(e.comparators[0])
+            if a[0] == 'imag' or b[0] == 'imag':
+                if not (a[0] == b[0] == 'imag') or 'zero' not in (a[1], b[1]) or \
+                        not isinstance(e.ops[0], (ast.Eq, ast.NotEq)):
+                    raise Unsupported('imaginary part compared as %s' % norm(e))
+                same = a[1] == b[1]
+                return same if isinstance(e.ops[0], ast.Eq) else not same
+            if a[0] == 'civ' or b[0] == 'civ':
+                raise ComplexAsReal(norm(e))
             op = CMPOP.get(type(e.ops[0]))
             kern = optable.get(op)
             if kern is None:
@@ -239,26 +364,44 @@ def eval_contains(ix, fnode, s_iv, t_iv, optable):
             evr = OrderEvaluator(ix, LIBMPI)
             return evr.call(kern, [a[1], b[1]])
         if isinstance(e, ast.BoolOp):
-            vals = [ev(x) for x in e.values]
-            if isinstance(e.op, ast.And):
-                for v in vals:
-                    if not v:
-                        return v
-                return vals[-1]
-            for v in vals:
-                if v:
-                    return v
-            return vals[-1]
+            last = None
+            for x in e.values:
+                last = ev(x)
+                if isinstance(e.op, ast.And) and not last:
+                    return last
+                if isinstance(e.op, ast.Or) and last:
+                    return last
+            return last
         raise Unsupported('expression not modelled: %s' % norm(e))
 
-    for st in fnode.body:
-        if isinstance(st, ast.Assign) and len(st.targets) == 1 and \
-                isinstance(st.targets[0], ast.Name):
-            env[st.targets[0].id] = ev(st.value)
-        elif isinstance(st, ast.Return):
-            return ev(st.value)
-        elif isinstance(st, ast.Expr) and isinstance(st.value, ast.Constant):
-            continue
-        else:
-            raise Unsupported('statement not modelled: %s' % norm(st))
+    def block(body):
+        for st in body:
+            if isinstance(st, ast.Assign) and len(st.targets) == 1 and \
+                    isinstance(st.targets[0], ast.Name):
+                env[st.targets[0].id] = ev(st.value)
+            elif isinstance(st, ast.Assign) and len(st.targets) == 1 and \
+                    isinstance(st.targets[0], ast.Tuple) and len(st.targets[0].elts) == 2:
+                v = ev(st.value)
+                if v[0] != 'pair':
+                    raise Unsupported('unpacking of %s' % v[0])
+                for tgt, x in zip(st.targets[0].elts, v[1:]):
+                    env[tgt.id] = x
+            elif isinstance(st, ast.Return):
+                r = _Ret()
+                r.value = ev(st.value) if st.value is not None else None
+                raise r
+            elif isinstance(st, ast.If):
+                c = ev(st.test)
+                if c is not None and not isinstance(c, bool):
+                    raise Unsupported('condition %s is not a truth value' % norm(st.test))
+                block(st.body if c else st.orelse)
+            elif isinstance(st, ast.Expr) and isinstance(st.value, ast.Constant):
+                continue
+            else:
+                raise Unsupported('statement not modelled: %s' % norm(st))
+
+    try:
+        block(fnode.body)
+    except _Ret as r:
+        return r.value
     return None
